@@ -2657,7 +2657,8 @@ func compDefineX(sc *scope, n *node) error {
 		// Careful to not reuse a variable which has been shadowed (it must not be a newSym).
 		sym, level, ok := sc.lookup(id)
 		canRedeclare := hasNewSymbol && len(symIsNew) > 1 && !symIsNew[id] && ok
-		if canRedeclare && level == n.child[i].level && sym.kind == varSym && sym.typ.id() == t.id() {
+		// The level of a package level variable is always the global frame.
+		if canRedeclare && (level == n.child[i].level || sc.global && sym.global) && sym.kind == varSym && sym.typ.id() == t.id() {
 			index = sym.index
 			n.child[i].redeclared = true
 		} else {
